@@ -438,7 +438,10 @@ func ParseURI(uri SIPStr, puri *PsipURI) (ErrorURI, int) {
 				}
 			case '0', '1', '2', '3', '4', '5', '6', '7', '8', '9':
 				// in case this might be the port no, compute it
-				portNo = portNo*10 + int(c-'0')
+				// (stop at the first out of range value: avoid overflows)
+				if portNo <= 65535 {
+					portNo = portNo*10 + int(c-'0')
+				}
 			case '[', ']', ':':
 				return ErrURIBadChar, i
 			default:
@@ -511,7 +514,10 @@ func ParseURI(uri SIPStr, puri *PsipURI) (ErrorURI, int) {
 		case uPort:
 			switch c {
 			case '0', '1', '2', '3', '4', '5', '6', '7', '8', '9':
-				portNo = portNo*10 + int(c-'0')
+				// (stop at the first out of range value: avoid overflows)
+				if portNo <= 65535 {
+					portNo = portNo*10 + int(c-'0')
+				}
 			case ';':
 				puri.Port.Set(s, i)
 				if portNo > 65535 {
